@@ -135,6 +135,8 @@ def classifiers():
     add("tsf_jobs2", lambda: TimeSeriesForestClassifier(n_estimators=4, random_state=0, n_jobs=2))
     add("individual_boss", lambda: IndividualBOSS(window_size=6, word_length=4, random_state=0), cost="slow")
     add("boss_ensemble", lambda: BOSSEnsemble(max_ensemble_size=3, random_state=0), cost="slow")
+    # an even number of members: tied votes, broken by the seeded generator
+    add("boss_ensemble_even", lambda: BOSSEnsemble(max_ensemble_size=4, random_state=3), cost="slow")
     add("cboss", lambda: ContractableBOSS(n_parameter_samples=5, max_ensemble_size=3, random_state=0), cost="slow")
     add("column_ensemble", lambda: ColumnEnsembleClassifier(
         [("a", TimeSeriesForestClassifier(n_estimators=3, random_state=0), [0]),
